@@ -37,6 +37,12 @@ type c04Obj struct {
 	// the map the caller passed to StreamSetFromMap (an ARGUMENT: the stream set must hold a copy) and what it
 	// held at that moment; the harness never writes it, so any difference was made by the library
 	argMap, argSnap map[int]*fpgo.StreamDef[int]
+	// kind 'l': a caller-owned operand list (spread into a variadic call); lkind 's' streams / 'a' slices
+	lkind byte
+	gsl   []*fpgo.StreamDef[int]
+	gal   [][]int
+	isl   []*fpgo.StreamForInterfaceDef
+	ial   [][]interface{}
 }
 
 // names of the stream sets whose constructor argument map no longer holds what the caller put there
@@ -64,9 +70,27 @@ type c04State struct {
 	objs  []*c04Obj
 }
 
+// interface{} family encoding: -1 = the nil interface, -2 = a typed nil pointer (*int)(nil), 50.. = a non-nil
+// pointer (one interned cell per code, so == on the pointers is == on the codes), anything else = the int itself
+var c04Cells = map[int]*int{}
+
+func c04Cell(code int) *int {
+	if p, ok := c04Cells[code]; ok {
+		return p
+	}
+	v := code
+	c04Cells[code] = &v
+	return &v
+}
+
 func c04Enc(v int) interface{} {
-	if v == -1 {
+	switch {
+	case v == -1:
 		return nil
+	case v == -2:
+		return (*int)(nil)
+	case v >= 50:
+		return c04Cell(v)
 	}
 	return v
 }
@@ -77,6 +101,12 @@ func c04Dec(v interface{}) int {
 	}
 	if i, ok := v.(int); ok {
 		return i
+	}
+	if p, ok := v.(*int); ok {
+		if p == nil {
+			return -2
+		}
+		return *p
 	}
 	return -777 // not an element: never produced by a correct library
 }
@@ -176,6 +206,43 @@ func c04IfaceInts(l []interface{}) string {
 
 func (st *c04State) dumpObj(o *c04Obj) string {
 	switch o.kind {
+	case 'l':
+		var parts []string
+		switch {
+		case o.lkind == 's' && st.iface:
+			for _, m := range o.isl {
+				if m == nil {
+					parts = append(parts, "nil")
+				} else {
+					parts = append(parts, "["+c04IfaceInts([]interface{}(*m))+"]")
+				}
+			}
+		case o.lkind == 's':
+			for _, m := range o.gsl {
+				if m == nil {
+					parts = append(parts, "nil")
+				} else {
+					parts = append(parts, "["+c04Ints([]int(*m))+"]")
+				}
+			}
+		case st.iface:
+			for _, m := range o.ial {
+				if m == nil {
+					parts = append(parts, "nil")
+				} else {
+					parts = append(parts, "["+c04IfaceInts(m)+"]")
+				}
+			}
+		default:
+			for _, m := range o.gal {
+				if m == nil {
+					parts = append(parts, "nil")
+				} else {
+					parts = append(parts, "["+c04Ints(m)+"]")
+				}
+			}
+		}
+		return "(" + strings.Join(parts, "/") + ")"
 	case 'a':
 		if st.iface {
 			s := "[" + c04IfaceInts(o.ia)
@@ -700,6 +767,9 @@ func (st *c04State) create(dst, name string, args []string) string {
 		sort.Ints(r)
 		return st.add(&c04Obj{name: dst, kind: 'a', ga: r})
 	}
+	if r, ok := st.createSpread(dst, name, args); ok {
+		return r
+	}
 	if r, ok := st.createS1(dst, name, args); ok {
 		return r
 	}
@@ -707,6 +777,151 @@ func (st *c04State) create(dst, name string, args []string) string {
 		return r
 	}
 	return c04BadOp
+}
+
+// spread calls: the operand list of a variadic method is a caller-owned slice
+func (st *c04State) createSpread(dst, name string, args []string) (string, bool) {
+	I := st.iface
+	switch name {
+	case "slist", "alist":
+		if len(args) != 1 {
+			return c04BadOp, true
+		}
+		names := strings.Split(args[0], ",")
+		o := &c04Obj{name: dst, kind: 'l', lkind: name[0]}
+		for _, n := range names {
+			if name == "slist" {
+				a, ok := st.strArg(n)
+				if !ok {
+					return c04BadRef, true
+				}
+				switch {
+				case I && a == nil:
+					o.isl = append(o.isl, nil)
+				case I:
+					o.isl = append(o.isl, a.is)
+				case a == nil:
+					o.gsl = append(o.gsl, nil)
+				default:
+					o.gsl = append(o.gsl, a.gs)
+				}
+				continue
+			}
+			var a *c04Obj
+			if n != "nil" {
+				if a = st.arr(n); a == nil {
+					return c04BadRef, true
+				}
+			}
+			switch {
+			case I && a == nil:
+				o.ial = append(o.ial, nil)
+			case I:
+				o.ial = append(o.ial, a.ia)
+			case a == nil:
+				o.gal = append(o.gal, nil)
+			default:
+				o.gal = append(o.gal, a.ga)
+			}
+		}
+		// exact capacity: the slice is the caller's, nothing to spare
+		o.isl, o.gsl, o.ial, o.gal = o.isl[:len(o.isl):len(o.isl)], o.gsl[:len(o.gsl):len(o.gsl)], o.ial[:len(o.ial):len(o.ial)], o.gal[:len(o.gal):len(o.gal)]
+		return st.add(o), true
+	case "extendv", "concatv":
+		if len(args) != 2 {
+			return c04BadOp, true
+		}
+		s := st.str(args[0])
+		l := st.find(args[1])
+		if l == nil || l.kind != 'l' {
+			return c04BadRef, true
+		}
+		// a list of slices is not a list of streams (the model resolves the members by name and refuses too)
+		if s == nil || (name == "extendv") != (l.lkind == 's') {
+			return c04BadRef, true
+		}
+		if name == "extendv" {
+			if I {
+				return st.add(&c04Obj{name: dst, kind: 's', is: s.is.Extend(l.isl...)}), true
+			}
+			return st.add(&c04Obj{name: dst, kind: 's', gs: s.gs.Extend(l.gsl...)}), true
+		}
+		if I {
+			return st.add(&c04Obj{name: dst, kind: 's', is: s.is.Concat(l.ial...)}), true
+		}
+		return st.add(&c04Obj{name: dst, kind: 's', gs: s.gs.Concat(l.gal...)}), true
+	case "appendv", "rmitemv":
+		if len(args) != 2 {
+			return c04BadOp, true
+		}
+		s := st.str(args[0])
+		a := st.arr(args[1])
+		if s == nil || a == nil {
+			return c04BadRef, true
+		}
+		if I {
+			if name == "appendv" {
+				return st.add(&c04Obj{name: dst, kind: 's', is: s.is.Append(a.ia...)}), true
+			}
+			return st.add(&c04Obj{name: dst, kind: 's', is: s.is.RemoveItem(a.ia...)}), true
+		}
+		if name == "appendv" {
+			return st.add(&c04Obj{name: dst, kind: 's', gs: s.gs.Append(a.ga...)}), true
+		}
+		return st.add(&c04Obj{name: dst, kind: 's', gs: s.gs.RemoveItem(a.ga...)}), true
+	case "addv", "rmkeysv", "rmvalsv":
+		if len(args) != 2 {
+			return c04BadOp, true
+		}
+		m := st.setLike(args[0])
+		a := st.arr(args[1])
+		if m == nil || a == nil {
+			return c04BadRef, true
+		}
+		streams := m.kind == 't'
+		if streams && name == "rmvalsv" {
+			return c04BadOp, true
+		}
+		switch {
+		case I && streams && name == "addv":
+			return st.add(&c04Obj{name: dst, kind: 'u', im: m.it.Add(a.ia...)}), true
+		case I && streams:
+			return st.add(&c04Obj{name: dst, kind: 'u', im: m.it.RemoveKeys(a.ia...)}), true
+		case I && name == "addv":
+			return st.add(&c04Obj{name: dst, kind: 'm', im: m.im.Add(a.ia...)}), true
+		case I && name == "rmkeysv":
+			return st.add(&c04Obj{name: dst, kind: 'm', im: m.im.RemoveKeys(a.ia...)}), true
+		case I:
+			return st.add(&c04Obj{name: dst, kind: 'm', im: m.im.RemoveValues(a.ia...)}), true
+		case streams && name == "addv":
+			return st.add(&c04Obj{name: dst, kind: 'u', gu: m.gt.Add(a.ga...)}), true
+		case streams:
+			return st.add(&c04Obj{name: dst, kind: 'u', gu: m.gt.RemoveKeys(a.ga...)}), true
+		case name == "addv":
+			return st.add(&c04Obj{name: dst, kind: 'm', gm: m.gm.Add(a.ga...)}), true
+		case name == "rmkeysv":
+			return st.add(&c04Obj{name: dst, kind: 'm', gm: m.gm.RemoveKeys(a.ga...)}), true
+		}
+		return st.add(&c04Obj{name: dst, kind: 'm', gm: m.gm.RemoveValues(a.ga...)}), true
+	case "setfromv", "tfromv":
+		if len(args) != 1 {
+			return c04BadOp, true
+		}
+		a := st.arr(args[0])
+		if a == nil {
+			return c04BadRef, true
+		}
+		switch {
+		case I && name == "setfromv":
+			return st.add(&c04Obj{name: dst, kind: 'm', im: fpgo.SetForInterfaceFrom(a.ia...)}), true
+		case I:
+			return st.add(&c04Obj{name: dst, kind: 't', it: fpgo.StreamSetForInterfaceFrom(a.ia...)}), true
+		case name == "setfromv":
+			return st.add(&c04Obj{name: dst, kind: 'm', gm: fpgo.SetFrom[int, int](a.ga...)}), true
+		}
+		return st.add(&c04Obj{name: dst, kind: 't', gt: fpgo.StreamSetFrom[int, int](a.ga...)}), true
+	}
+	return "", false
 }
 
 // unary stream transformers
@@ -1212,6 +1427,9 @@ func c04Run(line string) string {
 	body := line
 	if strings.HasPrefix(line, "H: ") {
 		return c04HRun(line[3:])
+	}
+	if strings.HasPrefix(line, "P: ") {
+		return c04PRun(line[3:])
 	}
 	if strings.HasPrefix(line, "I: ") {
 		st.iface = true
